@@ -21,7 +21,7 @@ LEVEL = 'model_checking'
 TOTAL = 3
 
 QUICK = dict(grids=['1x1g', '2x1g', '3x1g', '1x2g'], hist=1, max_iso=4, max_aniso=3)
-THOROUGH = dict(grids=['1x1g', '2x1g', '3x1g', '3x1o', '1x2g', '2x2o'], hist=2, max_iso=5, max_aniso=4)
+THOROUGH = dict(grids=['1x1g', '2x1g', '3x1g', '3x1o', '1x2g', '2x2o'], hist=2, max_iso=4, max_aniso=3)
 
 
 def setup_mesh(M, gridname, hist, eng, actions=None):
